@@ -173,7 +173,12 @@ boolfam! {
         (p3, ".F0r:1.Pi32.Pi32", "1", (fn(i32) -> i32)),
         (p4, ".Pi32.T1.Pu8", "2", (i32, (u8,))),
         (p5, ".F0r:0.Pbool", "1", (fn() -> bool)),
-        (p6, ".Phx::sigs::Größe.T2.Pi32.Pi32", "2", (Größe, (i32, i32)))
+        (p6, ".Phx::sigs::Größe.T2.Pi32.Pi32", "2", (Größe, (i32, i32))),
+        // references: rustc writes their elided lifetimes into the recorded text (`&'_ i32`), so the text
+        // holds quote characters -- one, two, or one inside a nested parenthesis
+        (p7, ".R0.Pi32", "1", (&i32)),
+        (p8, ".R0.Pi32.R1.Pu8", "2", (&i32, &mut u8)),
+        (p9, ".T2.R0.Pi32.Pu8", "1", ((&i32, u8)))
     ];
     rets: [
         (r_bool, "Pbool", bool),
@@ -181,6 +186,8 @@ boolfam! {
         (r_i32, "Pi32", i32),
         (r_fn_bool, "F0r:0.Pbool", fn() -> bool),
         (r_ufn_bool, "F1r:1.Pu8.Pbool", unsafe fn(u8) -> bool),
+        (r_fn_ref_bool, "F0r:1.R0.Pu8.Pbool", fn(&u8) -> bool),
+        (r_fn_2ref_bool, "F0r:2.R0.Pu8.R0.Pi32.Pbool", fn(&u8, &i32) -> bool),
         (r_cfn_bool, "F0c:0.Pbool", extern "C" fn() -> bool),
         (r_ptr_fn_bool, "Q0.F0r:0.Pbool", *const fn() -> bool),
         (r_dyn_bool, "R0.D0.Pbool", &'static dyn Fn() -> bool),
@@ -474,8 +481,8 @@ pub fn run(a_: &Args, out: &mut impl Write) {
     // caller's FuncPtr carries, so the helper must be right on arbitrary text, not only on types
     {
         // `é` makes byte offsets and character counts differ in the scanned text
-        let alphabet: [(char, &str); 9] =
-            [('f', "fn"), ('(', "("), (')', ")"), ('>', " -> "), ('b', "bool"), ('u', "u8"), (',', ", "), ('&', "&"), ('e', "é")];
+        let alphabet: [(char, &str); 10] =
+            [('f', "fn"), ('(', "("), (')', ")"), ('>', " -> "), ('b', "bool"), ('u', "u8"), (',', ", "), ('&', "&"), ('e', "é"), ('q', "&'_ ")];
         let maxlen = if a_.tier_thorough { 6 } else { 5 };
         let ta = (bool_family()[0].target_addr)();
         let mut idx = vec![0usize; 0];
